@@ -80,13 +80,21 @@ def entry_points(data):
 
 def inspect(data, out, tag, size):
     """Run every analysis entry point on data under the monitor."""
+    import re
+
+    tokens = frozenset(t.decode("ascii") for t in re.findall(rb"[A-Za-z_][A-Za-z0-9_]{2,}", data))
     listing_before = sorted(os.listdir(_WD[0]))
     marker = os.environ.get("VP_CANARY_MARKER")
     path, report = scratch_file()
     for name, thunk in entry_points(data).items():
         if os.path.exists(report):
             os.remove(report)
-        outcome, events, newmods = MONITOR.run(thunk)
+        outcome, events, newmods = MONITOR.run(thunk, tokens)
+        live = sys.modules.get("vp_live")
+        if live is not None and live.LOG:
+            out.violate(PROP, f"C01|{name}|attribute-resolved-on-loaded-module", f"{name} on {tag}: looked up {live.LOG[:3]} on the loaded module vp_live",
+                        {"engine": "E4", "entry_point": name, "input": tag, "bytes": data}, size)
+            del live.LOG[:]
         out.stats.inc("entry_point_calls")
         out.stats.inc("calls_" + ("returned" if outcome == "returned" else "raised"))
         out.outcomes.add((name, outcome))
@@ -120,7 +128,8 @@ def sigma(tier="thorough"):
     if tier == "quick":
         core = [c for c in CORE if c not in ("T1", "DUP", "NEWOBJ_EX")]
         return alphabet(core, [G("vp_canary_mod", "boom"), G("vp_canary_pkg.sub", "boom"), G("os", "system"), G("vp_sink", "hit"),
-                               SG("vp_canary_pkg.sub", "boom"), SG("builtins", "exec"), INST("vp_canary_mod", "boom"), sym_true()])
+                               SG("vp_canary_pkg.sub", "boom"), SG("builtins", "exec"), INST("vp_canary_mod", "boom"), sym_true(),
+                               G("vp_live", "ghost"), INST("vp_live", "ghost")])
     return alphabet(CORE, [G("vp_canary_mod", "boom"), G("vp_canary_pkg.sub", "boom"), G("os", "system"), G("builtins", "eval"),
                            G("vp_sink", "hit"), SG("vp_canary_pkg.sub", "boom"), SG("builtins", "exec"), INST("vp_canary_mod", "boom"),
                            INST("os", "system"), sym_true()])
@@ -179,6 +188,19 @@ def natural(tier):
     out.append(("sink-obj", asm("MARK", ("GLOBAL", ("vp_sink", "hit")), sbu("x"), "OBJ", "STOP")))
     out.append(("sink-newobj-build", asm(("GLOBAL", ("vp_sink", "hit")), "EMPTY_TUPLE", "NEWOBJ", "EMPTY_DICT", "BUILD", "STOP")))
     out.append(("persid", asm(sbu("vp_canary_mod"), "BINPERSID", "STOP")))
+    # callables a "helpful" analysis might be tempted to evaluate: codec lookup by an input-chosen name, marshal.loads of
+    # input bytes, attribute lookup on a module that is already loaded
+    import marshal
+
+    for proto in (0, 2, 4):
+        pre = [("PROTO", proto)] if proto >= 2 else []
+        out.append((f"codec-name/proto{proto}", asm(*pre, ("GLOBAL", ("_codecs", "encode")), sbu("text"), sbu("vp_canary_codec"), "TUPLE2", "REDUCE", "STOP")))
+        out.append((f"marshal-loads/proto{proto}", asm(*pre, ("GLOBAL", ("marshal", "loads")), ("SHORT_BINBYTES", marshal.dumps(compile("1", "<vp>", "eval"))),
+                                                         "TUPLE1", "REDUCE", "STOP")))
+    out.append(("live-obj", asm("MARK", ("GLOBAL", ("vp_live", "ghost")), "OBJ", "STOP")))
+    out.append(("live-inst", asm("MARK", ("INST", ("vp_live", "ghost")), "STOP")))
+    out.append(("live-newobj", asm(("GLOBAL", ("vp_live", "ghost")), "EMPTY_TUPLE", "NEWOBJ", "STOP")))
+    out.append(("live-reduce", asm(("GLOBAL", ("vp_live", "ghost")), "EMPTY_TUPLE", "REDUCE", "EMPTY_DICT", "BUILD", "STOP")))
     out.append(("ext1", asm(("EXT1", 1), "STOP")))
     out.append(("stacked", pickle.dumps(_Sys(), 2) + pickle.dumps(_Eval(), 0) + pickle.dumps([1], 4)))
     return out
@@ -235,13 +257,17 @@ def check(tier):
     with e3.Scratch("c01") as wd:
         _WD[0] = wd
         os.environ["VP_CANARY_MARKER"] = os.path.join(wd, "CANARY")
+        import vp_live  # noqa: F401 - deliberately loaded: see fixtures/vp_live.py
+
         MONITOR.install()
         warm_up()
         depth = 5 if tier == "thorough" else 4
         cfg = e1.Config(PROP, sigma(tier), depth, [], [inert_oracle], split=2, want_states=True)
         e1.run(cfg, rep)
         nat = natural(tier)
-        seeds = nat if tier == "thorough" else [x for x in nat if x[0].endswith(("proto0", "proto2", "proto4")) or "/" not in x[0]]
+        quick_seeds = ("_Sys/proto0", "_Sys/proto2", "_Sys/proto4", "_Eval/proto2", "_Exec/proto4", "canary-global", "canary-sub-sg",
+                       "canary-inst", "sink-obj", "codec-name/proto2", "marshal-loads/proto2", "live-inst", "live-obj")
+        seeds = nat if tier == "thorough" else [x for x in nat if x[0] in quick_seeds]
         items = list(nat)
         nseeds = 0
         for tag, data in seeds:
